@@ -78,14 +78,27 @@ def judge_cut(ek, res, same):
     return res[0] == ek and res[1] in ("clean", "flowRead") and bool(same)
 
 
-def judge_stream_file(res, got, finished, pending):
-    """C37 on a stream file at some moment: it reads (clean end or flow-read error, nothing else) as all finished flows in
-    order; when done() has run, additionally the flows that were still active (`pending`, any order) after them and nothing else."""
+def judge_stream_file(res, got, segs):
+    """C37 on a stream file at some moment. `segs` is what the INPUTS say belongs in it: ("seq", states) = flows finished by
+    save hooks, in hook order; ("set", states) = the flows still active when done() ran (it walks a set: any order).
+    The file has to read — clean end or flow-read error, nothing else — as exactly these, segment by segment."""
     if res[1] not in ("clean", "flowRead") or res[0] != len(got): return False
-    n = len(finished)
-    if got[:n] != finished: return False
-    rest = got[n:]
-    return sorted(map(json.dumps, rest)) == sorted(map(json.dumps, pending))
+    i = 0
+    for kind, items in segs:
+        part = got[i:i + len(items)]; i += len(items)
+        if kind == "seq":
+            if part != items: return False
+        elif sorted(map(json.dumps, part)) != sorted(map(json.dumps, items)): return False
+    return i == len(got)
+
+
+def seg_count(segs):
+    return sum(len(items) for _, items in segs)
+
+
+def seg_add(segs, state):
+    if segs and segs[-1][0] == "seq": segs[-1][1].append(state)
+    else: segs.append(("seq", [state]))
 
 
 def restart_allowed(event, same_path, plus):
@@ -127,7 +140,14 @@ class Check(PropertyCheck):
     level_note = ("trusted: Lean kernel; differential tie (all offsets of sampled files, sampled hook sequences); bytes handed "
                   "to the OS reach the file in order and survive the crash of the process (a prefix of them if the OS write itself is cut "
                   "short) — that is the remaining assumption about the platform; the buffering layer above it is modelled (any policy), "
-                  "CPython's policy for regular files is transcribed assuming raw writes complete; which Save hook or option update writes, keeps or restarts the file is validated by "
+                  "CPython's policy for regular files is transcribed assuming raw writes complete; lenient branches of the oracle (each exercised by known_selftest with a doctored "
+                  "observation just outside it): L1 a truncated read may end cleanly OR with FlowReadException (the statement names "
+                  "both; the model predicts which); L2 the flows still active at done() are compared as a set after the finished flows "
+                  "(done() walks a set) — which flows those are is tracked from the hook script, not read from the addon; L3 a stream file "
+                  "may start afresh only after the user re-opens its path in overwrite mode; record boundaries come from an independent "
+                  "reading of the framing and must agree with the writer's positions; full flow states are compared at every offset; "
+                  "the model tie skips (never the oracle) three in four boundary-free windows in the thorough tier; "
+                  "which Save hook or option update writes, keeps or restarts the file is validated by "
                   "the harness against the real addon (flowfilter decides which flows match), the Lean model only knows "
                   "noop/save/done events on one file; from_state∘migrate_flow is a parameter of the "
                   "reader model and the equality of loaded flows with the written ones is validated by the harness.")
@@ -161,6 +181,40 @@ class Check(PropertyCheck):
     def setup(self, tier):
         self.parallel = tier == "thorough"
         self.tier = tier
+        self.known_selftest()
+
+    def known_selftest(self):
+        """the oracle's lenient branches are exactly as wide as their reasons: doctored observations just outside each
+        excused class must be rejected (independent of the tree under test; a disagreement ends the run as INFRA)"""
+        def need(cond, what):
+            if not cond: raise AssertionError("C37 oracle selftest: " + what)
+        # (L1) either ending is accepted after the complete flows — but nothing else, and never a wrong set of flows
+        need(judge_cut(1, [1, "clean"], True) and judge_cut(1, [1, "flowRead"], True), "both endings the statement names are accepted")
+        need(not judge_cut(1, [1, "other:KeyError"], True), "an escaping exception is not an accepted ending")
+        need(not judge_cut(1, [2, "clean"], True), "one flow too many (a partially written flow returned)")
+        need(not judge_cut(2, [1, "flowRead"], True), "a completely written flow missing")
+        need(not judge_cut(1, [1, "clean"], False), "right count, wrong flow state")
+        # (L2) the flows done() writes are compared as a set — only those, only after the finished flows, nothing foreign
+        a, b, c, x = "sA", "sB", "sC", "sX"
+        need(judge_stream_file([3, "clean"], [a, c, b], [("seq", [a]), ("set", [b, c])]), "done() batch in any order")
+        need(not judge_stream_file([3, "clean"], [c, a, b], [("seq", [a]), ("set", [b, c])]), "a pending flow before a finished one")
+        need(not judge_stream_file([2, "clean"], [b, a], [("seq", [a, b])]), "finished flows out of order")
+        need(not judge_stream_file([1, "clean"], [a], [("seq", [a, b])]), "a finished flow lost")
+        need(not judge_stream_file([3, "clean"], [a, b, x], [("seq", [a, b])]), "a foreign record after the finished flows")
+        need(not judge_stream_file([3, "clean"], [a, b, x], [("seq", [a]), ("set", [b, c])]), "done() batch with a foreign flow")
+        need(not judge_stream_file([2, "other:OSError"], [a, b], [("seq", [a, b])]), "escaping exception while reading the stream file")
+        need(not judge_stream_file([3, "clean"], [a, b], [("seq", [a, b])]), "reader count differs from the states it returned")
+        need(judge_stream_file([0, "clean"], [], []), "empty file, nothing finished")
+        # (L3) a stream file may start afresh only when the USER re-opens its path in overwrite mode
+        need(restart_allowed("file", True, False), "overwrite-mode save_stream_file on the running path may restart the file")
+        need(not restart_allowed("filter", True, False), "a filter change may not restart the file")
+        need(not restart_allowed("file", True, True), "an append-mode spec may not restart the file")
+        need(not restart_allowed("hook", True, False) and not restart_allowed("stop", True, False), "hooks / stop may not restart the file")
+        # independent framing and the expected count
+        need(frame_bounds(b"3:abc,0:~") == [0, 6, 9] and frame_bounds(b"") == [0], "framing of whole records")
+        need(frame_bounds(b"3:abc,0:") is None and frame_bounds(b"x3:abc,") is None and frame_bounds(b"3:ab,") is None, "framing rejects cut / foreign bytes")
+        need(expected_at([0, 6, 9], 5) == (0, False) and expected_at([0, 6, 9], 6) == (1, True) and expected_at([0, 6, 9], 8) == (1, False)
+             and expected_at([0, 6, 9], 9) == (2, True) and expected_at([0, 6, 9], 0) == (0, True), "records wholly inside a prefix")
 
     # ---------------------------------------------------------------------------------------------
     def file_for(self, case):
@@ -247,6 +301,7 @@ class Check(PropertyCheck):
         raise ValueError(k)
 
     # -- the real Save addon, streaming ----------------------------------------------------------
+    START_HOOKS = ("request", "tcp_start", "udp_start", "dns_request")
     SAVE_HOOKS = ("response", "error", "websocket_end", "tcp_end", "tcp_error", "udp_end", "udp_error", "dns_response", "dns_error")
     FILTERS = [None, "~http", "~tcp", "~udp", "~dns", "!~tcp", "~websocket", "~q", "~e", "~all", "~marked", "~replay", "!~dns"]
 
@@ -299,6 +354,8 @@ class Check(PropertyCheck):
         steps, bad = [], []
         exp, wires = {}, {}         # per file: canonical states / wire forms that have to be in it, in order
         st = {"cur": None, "spec": None, "filt": None, "active": False}
+        in_flight = []              # flows whose start hook ran while a stream was open and that were not handed to save_flow
+                                    # since — tracked from the hook script (inputs), not read from the addon
 
         def content(name):
             try:
@@ -315,10 +372,10 @@ class Check(PropertyCheck):
             for name in exp:
                 res, states = run_reader(io.BytesIO(content(name)), want_states=True)
                 got = [state_canon(x) for x in states]
-                if (res[0] != len(exp[name]) or res[1] not in ("clean", "flowRead") or got != exp[name]) and len(bad) < 4:
-                    lost = len(exp[name]) - res[0]
-                    bad.append([label, f"file {name} reads as {res}; {len(exp[name])} finished flows belong in it"
-                                       + (f" ({lost} finished flows were lost)" if lost > 0 else "") + f"; flows-equal={got == exp[name]}"])
+                if not judge_stream_file(res, got, exp[name]) and len(bad) < 4:
+                    lost = seg_count(exp[name]) - res[0]
+                    bad.append([label, f"file {name} reads as {res}; {seg_count(exp[name])} finished flows belong in it"
+                                       + (f" ({lost} finished flows were lost)" if lost > 0 else "")])
 
         def open_file(tctx, sa, spec, label):
             name, plus = spec.lstrip("+"), spec.startswith("+")
@@ -327,7 +384,7 @@ class Check(PropertyCheck):
             if same:
                 # the user re-stated the option for the file that is being streamed to. Continuing is fine; an overwrite-mode
                 # spec may also start the file afresh (that is what the option says); an append-mode spec may not lose data.
-                if not plus and exp.get(name) and content(name) == b"":
+                if restart_allowed("file", same, plus) and exp.get(name) and content(name) == b"":
                     exp[name], wires[name] = [], []
                     ops = ["reset"]
                 else:
@@ -358,9 +415,14 @@ class Check(PropertyCheck):
                             and not (hook in ("response", "error") and getattr(f, "websocket", None) is not None)
                         ops = ["noop"]
                         if will_save:
-                            exp[st["cur"]].append(state_canon(f.get_state()))
+                            seg_add(exp[st["cur"]], state_canon(f.get_state()))
                             w = to_wire(f.get_state()); wires[st["cur"]].append(w)
                             ops = ["save " + w]                 # the state handed to the writer by this hook
+                        if st["active"] and hook in self.START_HOOKS and ev[1] not in in_flight:
+                            in_flight.append(ev[1])
+                        if st["active"] and hook in self.SAVE_HOOKS and ev[1] in in_flight \
+                                and not (hook in ("response", "error") and getattr(f, "websocket", None) is not None):
+                            in_flight.remove(ev[1])             # save_flow drops it from the active set, matching or not
                         getattr(sa, hook)(f)
                     elif ev[0] == "filter":
                         st["filt"] = ev[1]
@@ -374,21 +436,22 @@ class Check(PropertyCheck):
                     else:
                         ops = ["noop"]
                         if st["active"]:
-                            pending = [f for f in sa.active_flows if matches(f)]
-                            before = len(exp[st["cur"]])
+                            pending = [flows[j] for j in in_flight if matches(flows[j])]
+                            del in_flight[:]
+                            before = seg_count(exp[st["cur"]])
                             tctx.configure(sa, save_stream_file=None)
-                            # done() walks a set: the order in which it wrote the pending flows is read off the file
-                            # (matched by full state — flow ids are random strings and may coincide)
+                            # what done() has to have written is known from the inputs (as a set); the ORDER in which it did
+                            # is needed only to replay the same bytes in the model and is read off the file (matched by state)
                             pend = [(state_canon(f.get_state()), f) for f in pending]
+                            if pend: exp[st["cur"]].append(("set", [c for c, _ in pend]))
                             _, states = run_reader(io.BytesIO(content(st["cur"])), want_states=True)
                             order, left = [], list(pend)
                             for x in states[before:]:
                                 cx = state_canon(x)
                                 hit = next((i for i, (c, _) in enumerate(left) if c == cx), None)
                                 if hit is not None: order.append(left.pop(hit))
-                            order += left                        # anything not found in the file: the oracle below reports it
+                            order += left
                             for c, f in order:
-                                exp[st["cur"]].append(c)
                                 wires[st["cur"]].append(to_wire(f.get_state()))
                             ops = ["done " + (";".join(to_wire(f.get_state()) for _, f in order) or "-")]
                             st["active"] = False
